@@ -17,8 +17,9 @@ SPEC = {
         'unquote/unquote_to_bytes leaves with URLParseError only, and every URL() call in find_all_links is inside a '
         'URLParseError handler. Not decided: round-trip equality for every string (NFC, IDNA, IPv6 forms), fixed '
         'points on arbitrary RFC texts, lone surrogates.'
-        " T9.plus: in parse_qsl '+' becomes a space before percent-decoding."),
-    'decided': ['plus-before-unquote order', 'T12 character x component matrix (writer tables vs reader delimiters)', 'T12 hex tables and wiring',
+        " T9.plus: in parse_qsl '+' becomes a space before percent-decoding."
+        ' T12.polarity: minimal quoting escapes exactly the delimiter set. T12.unqs: unquote emits the decoded escape run and the following plain piece in every step.'),
+    'decided': ['minimal-quoting polarity', 'unquote emits both pieces', 'plus-before-unquote order', 'T12 character x component matrix (writer tables vs reader delimiters)', 'T12 hex tables and wiring',
                 'T13 sanitizer flow', 'T14 exception escape'],
     'declined': ['round-trip equality for every input string', 'IDNA / IPv6 textual forms', 'lone surrogates'],
     'trusted_base': ['RFC 3986 character classes (frozen table)', 're._parser AST of this interpreter',
